@@ -87,11 +87,8 @@ DesignC12 ==
   /\ cell.m = "own"  => OwnerOnly(Row(cell.msg), cell.holder, cell.signer, res.ok) /\ (cell.signer # cell.holder => st.pos = Pos0(cell.holder))
   /\ cell.m = "priv" => PrivilegedOnlyDesignated(cell.chain, cell.sender, res.ok) /\ PrivilegedRole(cell.v, cell.chain, cell.sender, res.ok)
   /\ cell.m = "kill" => KillOnlyAdmin(cell.sender, res.ok)
-(* second named deviation: the V2 market bid reads the debt asset's TWA without checking that the record exists and is active *)
-BidReadsStalePrice(c) == c.m = "ctl" /\ Row(c.h).pk = "bid" /\ "out" \in c.off
-BidDeviation == BidReadsStalePrice(cell) => MustReject(Row(cell.h), cell.prod, CtlOf(cell)) /\ res.ok
 DesignC14 ==
-  /\ cell.m = "ctl" /\ ~BidReadsStalePrice(cell) => (MustReject(Row(cell.h), cell.prod, CtlOf(cell)) => ~res.ok)
+  /\ cell.m = "ctl" => (MustReject(Row(cell.h), cell.prod, CtlOf(cell)) => ~res.ok)
   /\ cell.m = "auc"  => (AucPriceReq(cell.hook, cell.off) => ~res.ok)
   /\ cell.m = "hook" => (HookMustIdle(cell.hook, Ctl(cell.breaker, cell.esm, cell.off)) => ~res.ok)
 (* the named deviation: outside the two known networks the dispatcher has no sender guard at all *)
